@@ -39,6 +39,8 @@ def rerun(ctx, case):
         bf = os.path.join(d, "b.ndjson")
         open(bf, "w").write(json.dumps(case["behaviour"]) + "\n")
         ctx.harness(["c02-twin", "-in", bf, "-out", out])
+    elif case["kind"] == "action":
+        ctx.harness(["c02-twin", "-actions", "-in", "none", "-out", out, "-only", case["src"]])
     else:
         ctx.harness(["c02-twin", "-fixtures", "-in", "/repo/test/testdata/runner", "-out", out, "-only", case["fixture"]] + case["args"])
     tf = os.path.join(d, "t.ndjson")
@@ -91,7 +93,14 @@ def run(ctx):
     fxargs = ["-seed", str(ctx.seed + 1), "-subsets", "6" if q else "24"]
     fouts, fstats = ctx.shards("c02-twin", "/repo/test/testdata/runner", os.path.join(ctx.work, "fx.trace"), extra=["-fixtures"] + fxargs)
     parts += fouts
-    errs = [e for s in stats + fstats for e in (s.get("errors") or [])]
+    # every action definition of flows/actions/testdata, as it is and with each template replaced by edge values, through a
+    # wait at which the session is written out and read back
+    aouts, astats = ctx.shards("c02-twin", "none", os.path.join(ctx.work, "act.trace"), extra=["-actions"])
+    parts += aouts
+    nact = sum(s.get("scripts", 0) for s in astats)
+    if nact == 0:
+        raise vlib.Infra("no action definition could be run")
+    errs = [e for s in stats + fstats + astats for e in (s.get("errors") or [])]
     nbeh = sum(s.get("scripts", 0) for s in stats)
     nfx = sum(s.get("scripts", 0) for s in fstats)
     ncalls = sum(s.get("calls", 0) for s in stats + fstats)
@@ -113,7 +122,9 @@ def run(ctx):
     known = {k["key"] for k in vlib.load_known().get("findings", []) if k["property"] == "C02"}
     for key, (name, line) in sorted(vlib.limit_new(by_key, "C02").items()):
         src = line["src"]
-        if "#" in src:
+        if src.startswith("flows/actions/testdata/"):
+            case = dict(kind="action", src=src, pred=name, line=line)
+        elif "#" in src:
             path, idx = src.rsplit("#", 1)
             with open(path) as f:
                 for i, l in enumerate(f):
